@@ -200,4 +200,48 @@ Proof.
       * now rewrite Hargs.
     + unfold no_single. cbn. exact Hsingle.
 Qed.
+(* The same induction with the soundness of the steps as a hypothesis about the run: every theorem of Proofs/C19*.v
+   (binary operations, splits, stack, append, from_images, FlowFields dispatcher, ...) can be plugged in step by step. *)
+Fixpoint steps_sound (cur : tval) (inputs : list tval) (steps : list step) : Prop :=
+  match steps with
+  | [] => True
+  | st :: r => res_sound gshape (map (resolve cur inputs) (s_args st)) (run_step gshape gaxes cur inputs st)
+               /\ match pick_out (run_step gshape gaxes cur inputs st) (s_pick st) with
+                  | Some o => is_single (v_kind o) = false /\ steps_sound (val_of o) inputs r
+                  | None => True
+                  end
+  end.
+
+Theorem prog_sound_general steps : forall (cur : pval) (inputs : list pval) (final : pval),
+  ginv grid_of cur -> no_single cur ->
+  Forall (fun p => ginv grid_of p /\ no_single p) inputs ->
+  steps_sound (fst cur) (map fst inputs) steps ->
+  prun gshape gaxes cur inputs steps = Some final ->
+  ginv grid_of final.
+Proof.
+  induction steps as [|st r IH]; intros cur inputs final Hinv Hns Hin Hok Hrun.
+  - cbn in Hrun. injection Hrun as <-. auto.
+  - cbn [prun] in Hrun. destruct (pstep gshape gaxes cur inputs st) as [v|] eqn:Ep; [|discriminate Hrun].
+    unfold pstep in Ep. cbn [steps_sound] in Hok. destruct Hok as (Hsound & Hrest).
+    assert (Hargs : map fst (map (presolve cur inputs) (s_args st)) = map (resolve (fst cur) (map fst inputs)) (s_args st)).
+    { rewrite map_map. apply map_ext. intros [|k]; cbn; [reflexivity|].
+      change (mkT [] TPlain) with (fst (mkT [] TPlain, @nil (list nat))). now rewrite map_nth. }
+    rewrite Hargs in Ep. unfold run_step in Hrest, Hsound.
+    destruct (pick_out (run_op gshape gaxes (s_op st) (map (resolve (fst cur) (map fst inputs)) (s_args st))) (s_pick st)) as [o|] eqn:Epick;
+      [|discriminate Ep].
+    injection Ep as <-. destruct Hrest as (Hsingle & Hrest).
+    pose proof (pick_sound _ _ _ _ Hsound Epick) as Hos.
+    assert (HargsF : Forall (fun p => ginv grid_of p /\ no_single p) (map (presolve cur inputs) (s_args st))).
+    { apply Forall_forall. intros p Hp. apply in_map_iff in Hp. destruct Hp as (rf & <- & _). destruct rf as [|k]; cbn; [auto|].
+      destruct (Nat.lt_ge_cases k (length inputs)) as [Hk|Hk].
+      - rewrite Forall_forall in Hin. apply Hin. now apply nth_In.
+      - rewrite nth_overflow by exact Hk. cbn. unfold ginv, no_single; cbn. auto. }
+    apply (IH (val_of o, prov_of (map (presolve cur inputs) (s_args st)) (v_src o)) inputs final);
+      [ | | exact Hin | exact Hrest | exact Hrun].
+    + apply step_inv; auto.
+      * eapply Forall_impl; [|exact HargsF]. intros p (H & _); exact H.
+      * eapply Forall_impl; [|exact HargsF]. intros p (_ & H); exact H.
+      * now rewrite Hargs.
+    + unfold no_single. cbn. exact Hsingle.
+Qed.
 End Prog.
